@@ -207,7 +207,8 @@ def run(ctx):
         # points are all replayed only for documents starting at schema >= 5
         # in the thorough tier (below 5 every path costs a bcrypt hash).
         "exhaustive": False,
-        "exhaustive_documents": True,
+        "exhaustive_documents": "every single-deviation document and baseline is replayed in both tiers; "
+                                "pair documents starting below schema 5 are a seeded sample of 600",
         "split_points": "thorough: all k for documents starting at schema >= 5, 3 seeded k below; "
                         "quick: 3 seeded k (one k for a quarter of the documents below schema 5)",
         "samples": samples,
